@@ -323,7 +323,7 @@ func enumProgram(t1, t2, op, layout string) *Program {
 		}
 		return &Program{Stmts: []*Node{l, r}, Seps: []string{" ; "}}
 	case "two-lines":
-		if op != "+" || nodeTailClass(l) == "close" || startsWithSign(t2) {
+		if op != "+" || nodeTailClass(l) == "close" || startsWithSign(t2) || t2 == "f" {
 			return nil
 		}
 		return &Program{Lead: " ", Stmts: []*Node{l, r}, Seps: []string{"\n"}}
@@ -398,7 +398,6 @@ func drawComputed(t *rapid.T, c *Case) (nonTrivial bool) {
 	bodyHasDice := false
 	for i := 0; i < nc; i++ {
 		g := newGen(t, avail)
-		g.noDC = true
 		g.noDefault = true
 		g.budget = rapid.IntRange(1, 4).Draw(t, "cbudget")
 		body := g.genExpr(2)
@@ -410,12 +409,11 @@ func drawComputed(t *rapid.T, c *Case) (nonTrivial bool) {
 		avail = append(avail, v)
 		if inProg {
 			defs = append(defs, &Def{Name: names[i], Body: body, W: []string{
-				rapid.SampledFrom(wsNoNLPool).Draw(t, "dw0"), rapid.SampledFrom(wsAnyPool).Draw(t, "dw1"),
-				g.wsBeforeClose(body), rapid.SampledFrom(wsAnyPool).Draw(t, "dw3")}})
+				pickOf(t, wsNoNLPool, "dw0"), pickOf(t, wsAnyPool, "dw1"),
+				g.wsBeforeClose(body), pickOf(t, wsAnyPool, "dw3")}})
 		}
 	}
 	g := newGen(t, avail)
-	g.noDC = true
 	g.budget = rapid.IntRange(1, 5).Draw(t, "budget")
 	e := g.genExpr(2)
 	if g.feats["computed-var"] == 0 {
@@ -424,7 +422,7 @@ func drawComputed(t *rapid.T, c *Case) (nonTrivial bool) {
 		g.nVars++
 	}
 	c.Prog = &Program{Stmts: []*Node{e}, Defs: defs}
-	if rapid.IntRange(0, 9).Draw(t, "lead") == 0 {
+	if pct(t, 10, "lead") {
 		c.Prog.Lead = " "
 	}
 	return bodyHasDice && g.nDice+g.nVars >= 2
